@@ -41,12 +41,17 @@ def lit_class(l):
             return "neutral"
         return None
     if l[0] == "cmp":
-        fa, fb = df.named_fields(l[2]), df.named_fields(l[3])
-        ra, rb = df.path_root(l[2]), df.path_root(l[3])
-        pair = sorted([(ra, fa), (rb, fb)], key=str)
+        def alts(t):
+            # an or-pattern binding (`A { id, .. } | B { id, .. }`) is a phi of the two projections: every alternative
+            # must be the expected field
+            t = df.strip(t)
+            return [df.strip(x) for x in t[1]] if t[0] == "phi" else [t]
+        sides = [[(df.path_root(x), df.named_fields(x)) for x in alts(l[2])],
+                 [(df.path_root(x), df.named_fields(x)) for x in alts(l[3])]]
         def has(fields_suffix, root_self):
-            for (r, f) in pair:
-                if f is not None and f[-len(fields_suffix):] == tuple(fields_suffix) and ((r == ("arg", 1)) == root_self):
+            for side in sides:
+                if side and all(f is not None and f[-len(fields_suffix):] == tuple(fields_suffix) and
+                                ((r == ("arg", 1)) == root_self) for (r, f) in side):
                     return True
             return False
         if l[1] == "eq" and has(("peer_delay_state", "id"), True) and has(("sequence_id",), False):
@@ -64,7 +69,7 @@ def lit_class(l):
 def run(ctx):
     rep = ctx.report
     prog = ctx.prog("default")
-    rep.rule("PD-1a", "->Faulty only on responder mismatch for the current request, effect-free, not shadowed", floor=4)
+    rep.rule("PD-1a", "->Faulty only on responder mismatch for the current request, effect-free, not shadowed", floor=2)
     rep.rule("PD-1b", "Faulty is left only at the single-responder recovery site", floor=1)
     rep.rule("PD-2", "no emitter can run in state Faulty", floor=5)
     rep.rule("PD-3", "peer-delay formula and corrections have the IEEE linear form", floor=15)
